@@ -52,9 +52,8 @@ def execute(ctx, pid, prefix, events, with_vel, jobs_mc, nrand, max_mc, post=Non
         res = ctx.mc(module, cfg, timeout=5400, heap=ctx.pick("3g", "6g"))
         insts = res.printed
         n_emitted += len(insts)
-        if len(insts) > max_mc:   # deterministic thinning (TLC's print order depends on worker scheduling)
-            insts = sorted(insts, key=lambda d: hashlib.sha1(json.dumps(d, sort_keys=True).encode()).hexdigest())
-            insts = insts[:max_mc]
+        # TLC's print order depends on worker scheduling: order (and thin) deterministically
+        insts = sorted(insts, key=lambda d: hashlib.sha1(json.dumps(d, sort_keys=True).encode()).hexdigest())[:max_mc]
         for inst in insts:
             case += 1
             payloads[case] = {"kind": "mc", "inst": inst, "seed": ctx.seed * 1000003 + case}
@@ -100,7 +99,7 @@ def relay(ctx, verdicts, prefix, events):
 
 
 def run(ctx):
-    execute(ctx, PID, PREFIX, EVENTS, WITH_VEL, mc_jobs(ctx), ctx.pick(350, 12000), ctx.pick(1200, 40000))
+    execute(ctx, PID, PREFIX, EVENTS, WITH_VEL, mc_jobs(ctx), ctx.pick(350, 8000), ctx.pick(1200, 30000))
     ctx.rule = ("TLC enumerates N junction sites x displacement stencil x all numberings of both frames x guesses and "
                 "checks I => D; a sample of the leaves (every instance whose hash matches; denser where the premise holds, "
                 "where a vertex is mapped to a wrong successor, where the step is skipped) is rebuilt as real Frames whose "
